@@ -492,13 +492,20 @@ Fixpoint clip_bits (v : bytes) (n : Z) : Z :=
   | c :: r => clip_bits r (Z.lor n (if N.eqb c 120 then 1 else if N.eqb c 121 then 2 else if N.eqb c 122 then 4 else 8))
   end.
 
+(* grid type of a graph, AS PATCHED by docs/C20_grid_by_value.diff: a source that is no character is taken as the
+   number the property shows ('y'), so that the value read from a graph can be assigned again *)
+Definition grid_type (s : option source) : ntype :=
+  match s with
+  | Some src => match src_number NChr src with CErr _ => NU8 | _ => NChr end
+  | None => NChr
+  end.
 Definition graph_set_field (f : graph_field) (s : option source) (o : graph) : sres * graph :=
   match f with
   | GrFg => col_field s o (gr_fg o) (gr_fg def_graph) set_gr_fg
   | GrBg => col_field s o (gr_bg o) (gr_bg def_graph) set_gr_bg
   | GrPos => pt_field s o F32_ONE (gr_px def_graph) (gr_py def_graph) (fun x y g => set_gr_py y (set_gr_px x g))
   | GrScale => pt_field s o F32_MAX (gr_sx def_graph) (gr_sy def_graph) (fun x y g => set_gr_sy y (set_gr_sx x g))
-  | GrGrid => num_field NChr s o (NvInt (gr_grid def_graph)) (fun v => set_gr_grid (nv_int v))
+  | GrGrid => num_field (grid_type s) s o (NvInt (gr_grid def_graph)) (fun v => set_gr_grid (nv_int v))
   | GrAlign =>
     match s with
     | None => (SOk, set_gr_align (gr_align def_graph) o)
